@@ -33,7 +33,12 @@ CONSTANTS MaxCols,      \* bind metadata has 1..MaxCols columns
           MOrders,      \* C38: what the application defined and used BEFORE the model of the case (opaque here):
                         \*      "base_first": models keyed by the base column classes (Integer, Text),
                         \*      "subclass_first": models keyed by their subclasses (BigInt, SmallInt, TinyInt, Ascii)
-          MEmpty        \* C38: TRUE: text / blob key columns also take the empty value
+          MEmpty,       \* C38: TRUE: text / blob key columns also take the empty value
+          MLayouts,     \* C38: where the model DECLARES its clustering column relative to the partition key columns:
+                        \*      "keys_first" (the usual layout), "clustering_first", "clustering_between" (after the
+                        \*      first partition key column; needs two of them).  The table is PRIMARY KEY ((k1..kn), ck)
+                        \*      whatever the declaration order, and so is the partition key Cassandra hashes.
+          MLayoutMaxPk  \* C38: the unusual layouts are enumerated for models with up to this many partition key columns
 
 -----------------------------------------------------------------------------
 \* Bytes are sequences of 0..255.
@@ -196,12 +201,22 @@ MVal(ty, k) ==
       [] ty = "blob"     -> IF k = 1 THEN V(0, <<0, 255>>) ELSE IF k = 2 THEN V(0, <<1, 0, 0>>) ELSE V(0, <<>>)
       [] ty = "uuid"     -> IF k = 1 THEN V(0, [i \in 1..16 |-> i]) ELSE V(0, [i \in 1..16 |-> 255 - i])
 
+\* The clustering column's type differs from the type of the partition key column whose place it takes in the
+\* declaration order (a key component encoded with a neighbour's type must show)
+CkType(tys, layout) ==
+    LET displaced == IF layout = "clustering_between" THEN tys[2] ELSE tys[1]
+    IN IF displaced = "bigint" THEN "int" ELSE "bigint"
+
 NMVals(ty) == IF MEmpty /\ ty \in {"text", "blob"} THEN 3 ELSE 2
 
 MapperInit ==
     \E k \in 1..MMaxPk : \E tys \in [1..k -> MTypes] : \E vs \in [1..k -> 1..3] : \E op \in MOps : \E ord \in MOrders :
+    \E lay \in MLayouts :
        /\ \A i \in 1..k : vs[i] <= NMVals(tys[i])
-       /\ case = [prop |-> "C38", tys |-> tys, vals |-> [i \in 1..k |-> MVal(tys[i], vs[i])], op |-> op, order |-> ord]
+       /\ (lay # "keys_first" => k <= MLayoutMaxPk)
+       /\ (lay = "clustering_between" => k >= 2)
+       /\ case = [prop |-> "C38", tys |-> tys, vals |-> [i \in 1..k |-> MVal(tys[i], vs[i])], op |-> op, order |-> ord,
+                  layout |-> lay, ckty |-> CkType(tys, lay)]
        /\ out = [rk |-> RK("bytes", KeyBytes([i \in 1..k |-> Enc(tys[i], MVal(tys[i], vs[i]))]))]
 
 Next == UNCHANGED vars          \* the cases are the initial states
@@ -263,5 +278,7 @@ Witness_NullKeyComponent == ~(out.accept /\ out.rk.t = "any")
 Witness_EmptySingleKey == ~(out.accept /\ out.rk.t = "bytes" /\ Len(case.pk) = 1 /\ out.rk.b = <<>>)
 Witness_EmptyInComposite == ~(out.accept /\ out.rk.t = "bytes" /\ Len(case.pk) >= 2
                               /\ \E j \in 1..Len(case.pk) : out.slots[case.pk[j]].b = <<>>)
+Witness_ClusteringDeclaredFirst == ~(case.layout = "clustering_first" /\ case.ckty # case.tys[1])
+Witness_ClusteringDeclaredBetween == ~(case.layout = "clustering_between" /\ case.ckty # case.tys[2])
 Witness_MapperComposite == ~(Len(case.tys) >= 2)
 =============================================================================
